@@ -153,6 +153,8 @@ class Gen:
             const = self.rng.random() < self.p.get("p_const_leaf", 0.15)
         h = self.new()
         s = {"k": "leaf", "h": h, "sh": list(sh), "v": self.rand_vals(n, nozero, distinct), "const": bool(const)}
+        if len(sh) >= 2 and self.rng.random() < self.p.get("p_forder_leaf", 0.0):
+            s["order"] = "F"
         x = self.rng.random()
         if x < self.p.get("p_int_leaf", 0.0):
             s["dt"] = "i8"
@@ -865,12 +867,12 @@ def gen_program(seed: int, profile: dict) -> list[dict]:
 PROFILES = {
     "c01": dict(functional=["bin", "bin", "un", "power", "red", "red", "matmul", "where", "join", "gathercopy"],
                 w_func=0.75, w_view=0.25, w_inplace=0.0, max_leaves=3, max_steps=8, p_const_leaf=0.2),
-    "c04": dict(functional=["bin", "un", "red"], w_func=0.25, w_view=0.4, w_inplace=0.35, max_leaves=2,
+    "c04": dict(p_forder_leaf=0.25, functional=["bin", "un", "red"], w_func=0.25, w_view=0.4, w_inplace=0.35, max_leaves=2,
                 max_steps=8, backward=False, p_const_leaf=0.2, p_kw_const_view=0.08, p_kw_const_out=0.15,
                 inplace=["setitem", "setitem", "aug", "uout", "setshape"], w_misc=0.08, misc=["fail"]),
-    "c05": dict(functional=["bin", "bin", "un", "red", "matmul", "gathercopy"], w_func=0.35, w_view=0.3, w_inplace=0.35,
+    "c05": dict(p_forder_leaf=0.25, functional=["bin", "bin", "un", "red", "matmul", "gathercopy"], w_func=0.35, w_view=0.3, w_inplace=0.35,
                 max_leaves=2, max_steps=8, p_const_leaf=0.15),
-    "c06": dict(functional=["bin", "un", "red"], w_func=0.4, w_view=0.6, w_inplace=0.0, max_leaves=2, max_steps=7,
+    "c06": dict(p_forder_leaf=0.25, functional=["bin", "un", "red"], w_func=0.4, w_view=0.6, w_inplace=0.0, max_leaves=2, max_steps=7,
                 p_const_leaf=0.0),
     "c09": dict(functional=["bin", "bin", "un", "red", "matmul"], w_func=0.5, w_view=0.25, w_inplace=0.25, max_leaves=2,
                 max_steps=5, max_epochs=2, max_terminals=3, between_steps=3, p_const_leaf=0.15, w_misc=0.1,
